@@ -86,7 +86,7 @@ def case(chk, i):
     out = []
     for s in range(chk.pick(3, 8)):
         r = chk.rng("sel", i, s)
-        mode = r.choice(["blocklist-type", "blocklist-item", "opaque-type", "opaque-type", "mixed", "hide-annotation"])
+        mode = r.choice(["blocklist-type", "blocklist-item", "opaque-type", "opaque-type", "mixed", "hide-annotation", "blocklist-and-opaque"])
         k = r.randint(1, max(1, len(named) // 3))
         chosen = r.sample(named, k)
         if mode == "hide-annotation":
@@ -97,7 +97,7 @@ def case(chk, i):
                 chosen = [ranked[0]]
         block, opaque = [], []
         for c in chosen:
-            if mode.startswith("blocklist") or mode == "hide-annotation" or (mode == "mixed" and r.random() < 0.5):
+            if mode.startswith("blocklist") or mode == "hide-annotation" or (mode == "mixed" and r.random() < 0.5):   # incl. blocklist-and-opaque
                 block.append(c)
             else:
                 opaque.append(c)
@@ -124,6 +124,9 @@ def case(chk, i):
                 raw.append("#[repr(C, align(%d))] #[derive(Copy, Clone)] pub struct %s(pub [u8; %d]);" % (al, b.rust_name, sz))
                 continue
             flags += ["--blocklist-item" if mode == "blocklist-item" else "--blocklist-type", b.rust_name]
+            if mode == "blocklist-and-opaque":
+                # the same type also matched by an opaque pattern: the blocklist decides (not defined, nothing derived through it)
+                flags += ["--opaque-type", b.rust_name]
             sz, al = sizes[b.rust_name]
             raw.append("#[repr(C, align(%d))] #[derive(Copy, Clone)] pub struct %s(pub [u8; %d]);" % (al, b.rust_name, sz))
         for e in benum:
